@@ -207,7 +207,72 @@ def h_disjoint_no_error(axis):
     src = gbx.GeoboxTiles(src_g, (32, 32))
     dst = gbx.GeoboxTiles(dst_g, (16, 16))
     deps = dst.grid_intersect(src)  # must not raise
-    prove("one_entry_per_destination_tile", len(deps) == 4)
+    prove("no_more_than_one_entry_per_destination_tile", len(deps) <= 4)
+    # the rasters do not overlap (gap >= 0: apart or merely touching): no tile depends on anything
+    prove("no_dependencies_between_rasters_that_do_not_overlap", all(len(v) == 0 for v in deps.values()))
+
+
+class _EmptyGeom:
+    """what shapely hands back for the intersection of two footprints that do not meet"""
+
+    is_empty = True
+    crs = None
+
+    def __and__(self, o):
+        return self
+
+    __rand__ = __and__
+
+    def to_crs(self, crs, *a, **kw):
+        g = _EmptyGeom()
+        g.crs = crs
+        return g
+
+    @property
+    def boundingbox(self):
+        from odc.geo.geom import BoundingBox
+
+        nan = float("nan")
+        return BoundingBox(nan, nan, nan, nan, self.crs)
+
+    def disjoint(self, o):
+        return True
+
+
+def h_disjoint_general_path():
+    """different CRSs, footprints that do not meet (the projection library's verdict is the
+    stub): the dependency graph is empty, not an error"""
+    from affine import Affine
+
+    import odc.geo.geobox as gbx
+
+    if symx.concrete_mode():
+        from odc.geo.types import wh_
+
+        dst = gbx.GeoboxTiles(gbx.GeoBox(wh_(40, 30), Affine(10, 0, 1000, 0, -10, 5000), 3857), (10, 10))
+        src = gbx.GeoboxTiles(gbx.GeoBox(wh_(40, 30), Affine(0.01, 0, 100, 0, -0.01, -20), 4326), (10, 10))
+        try:
+            deps = dst.grid_intersect(src)
+        except Exception as e:  # noqa: BLE001
+            prove(f"empty_graph_not_an_error", False)
+            return
+        prove("empty_graph_not_an_error", all(len(v) == 0 for v in deps.values()))
+        return
+    src_g = mk_gbox(64, 64, "epsg:4326", Affine(Real("sa"), 0.0, Real("sc"), 0.0, Real("se"), Real("sf")))
+    dst_g = mk_gbox(32, 32, "epsg:3857", Affine(Real("da"), 0.0, Real("dc"), 0.0, Real("de"), Real("df")))
+    src = gbx.GeoboxTiles(src_g, (32, 32))
+    dst = gbx.GeoboxTiles(dst_g, (16, 16))
+    saved = gbx.GeoBoxBase.footprint
+    gbx.GeoBoxBase.footprint = lambda self, crs, buffer=0, npoints=100: _EmptyGeom()
+    try:
+        try:
+            deps = dst.grid_intersect(src)
+        except Exception:  # noqa: BLE001
+            prove("empty_graph_not_an_error", False)
+            return
+    finally:
+        gbx.GeoBoxBase.footprint = saved
+    prove("empty_graph_not_an_error", all(len(v) == 0 for v in deps.values()))
 
 
 TS_Q = [(1, 1), (3, 7), (16, 256)]
@@ -228,6 +293,9 @@ OBLIGATIONS = [
        descr="grid_intersect (linear path): every source tile overlapping the mapped destination tile by more than a sliver is listed for it; one entry per destination tile",
        functions=("odc.geo.geobox.GeoboxTiles.grid_intersect", "odc.geo.geobox.GeoboxTiles._grid_intersect_linear", "odc.geo.geobox.GeoboxTiles.tiles", "odc.geo.geobox.GeoboxTiles.range_from_bbox", "odc.geo.geom.BoundingBox.transform", "odc.geo.geom.BoundingBox.round"),
        bounds="scale grid x mirroring; destination <= 2 tiles, source <= 4 tiles along the symbolic axis (image sizes symbolic within that); translation symbolic", setup=setup, timeout_ms=30000, deadline_s=1500),
-    Ob("Q2_disjoint_no_error", h_disjoint_no_error, fixed(dict(axis="x"), dict(axis="y")), descr="rasters that do not overlap: grid_intersect returns (edge-clamped) entries, never an error",
+    Ob("Q4_disjoint_general_path", h_disjoint_general_path, fixed(), descr="different CRSs, footprints that do not meet: the dependency graph is empty rather than an error",
+       functions=("odc.geo.geobox.GeoboxTiles.grid_intersect", "odc.geo.geobox.GeoboxTiles.tiles", "odc.geo.geobox.GeoboxTiles.range_from_bbox"),
+       bounds="symbolic axis-aligned GeoBoxes in two CRSs", stubs=("GeoBox.footprint returns the empty geometry shapely gives for footprints that do not meet (NaN bounding box); the replay uses real disjoint rasters in EPSG:3857 / EPSG:4326",), setup=setup),
+    Ob("Q2_disjoint_no_error", h_disjoint_no_error, fixed(dict(axis="x"), dict(axis="y")), descr="same-CRS rasters that do not overlap (apart or touching): no error and no dependencies",
        functions=("odc.geo.geobox.GeoboxTiles.grid_intersect",), bounds="gap >= 0 symbolic, either side", setup=setup),
 ]
